@@ -541,3 +541,10 @@ Proof.
   destruct (cfg_run ops b0) as (_ & _ & _ & D). destruct (cfg_create _ _ _ _ _ _ H) as (_ & _ & _ & D').
   unfold env_bounds. cbn [fst snd]. fold b in D. rewrite D, D'. exact Hev.
 Qed.
+
+(* the storage arrays are allocated with the dtype of their space: observations and next observations with the observation space's dtype
+   (no cast), actions with _maybe_cast_dtype(action dtype) (float64 -> float32 by design), rewards / dones / timeouts as float32 *)
+Lemma frag_alloc_dtypes :
+  (rb_alloc_obs_dtype, rb_alloc_next_dtype, rb_alloc_act_dtype, rb_alloc_rew_dtype, rb_alloc_done_dtype, rb_alloc_to_dtype) = (1, 1, 2, 3, 3, 3) /\
+  (dictrb_alloc_obs_dtype, dictrb_alloc_next_dtype, dictrb_alloc_act_dtype) = (1, 1, 2).
+Proof. split; reflexivity. Qed.
